@@ -103,19 +103,37 @@ impl ErrKind {
     }
 }
 
-/// Is the error object the simulated reader reported still carried by `e` (directly as its payload,
-/// or further down its `source()` chain when a caller wrapped it with context)?
-pub fn carries_sim_error(e: &io::Error) -> bool {
+/// Is the error the simulated reader reported still carried by `e`: `e` itself, its payload, or
+/// something further down the `source()` chain (a loader may wrap the error with context)?
+/// For payload kinds that is the very `SimIoError` object; for raw OS errors (which have no
+/// payload) an `io::Error` with the same OS code.
+pub fn carried(kind: ErrKind, e: &io::Error) -> bool {
+    fn io_node(kind: ErrKind, io: &io::Error) -> bool {
+        if kind.is_raw() {
+            kind.matches(io)
+        } else {
+            io.get_ref().map(|p| p.is::<SimIoError>()).unwrap_or(false)
+        }
+    }
+    if io_node(kind, e) {
+        return true;
+    }
     let mut cur: Option<&(dyn std::error::Error + 'static)> = e.get_ref().map(|p| p as &(dyn std::error::Error + 'static));
     let mut depth = 0;
     while let Some(c) = cur {
-        if c.is::<SimIoError>() {
+        if !kind.is_raw() && c.is::<SimIoError>() {
             return true;
         }
         if let Some(io) = c.downcast_ref::<io::Error>() {
+            if io_node(kind, io) {
+                return true;
+            }
+            // an io::Error's own source() skips its payload object: look at the payload as well
             if let Some(p) = io.get_ref() {
-                if p.is::<SimIoError>() {
-                    return true;
+                if let Some(io2) = p.downcast_ref::<io::Error>() {
+                    if io_node(kind, io2) {
+                        return true;
+                    }
                 }
             }
         }
